@@ -24,13 +24,19 @@ class Scn:
         self.entries, self.cwd, self.opts, self.tdir, self.paths = [], b'/W', [], None, []
         self.driver, self.workers, self.extra = 'parfile', 4, []
         self.next_id = 100
+        self.by_text = {}
 
     def d(self, p):
         self.entries.append(dict(k='d', p=p)); return self
 
     def f(self, p, text=None):
         self.next_id += 1
-        self.entries.append(dict(k='f', p=p, id=self.next_id, text=text)); return self
+        # files with identical content share one content id (0 for empty files): snapshots identify files by content
+        if text is not None:
+            fid = 0 if text == b'' else self.by_text.setdefault(text, self.next_id)
+        else:
+            fid = self.next_id
+        self.entries.append(dict(k='f', p=p, id=fid, text=text)); return self
 
     def l(self, p, t):
         self.entries.append(dict(k='l', p=p, t=t)); return self
